@@ -907,3 +907,52 @@ func OpenWithoutDeferredClose(fi *FuncInfo, open, close string) []string {
 	}
 	return out
 }
+
+// OnDirectCycle: fi can reach itself through statically resolved calls between module functions (interface
+// dispatch is not followed).  Such functions need a recursion measure for termination.
+func (p *Program) OnDirectCycle(fi *FuncInfo) bool {
+	if p.dcg == nil {
+		dcg := map[string][]string{}
+		for k, f := range p.Funcs {
+			if f.Decl.Body == nil || strings.HasSuffix(f.File, "_test.go") {
+				continue
+			}
+			info := f.Pkg.TypesInfo
+			seen := map[string]bool{}
+			ast.Inspect(f.Decl.Body, func(n ast.Node) bool {
+				var fn *types.Func
+				switch e := n.(type) {
+				case *ast.Ident:
+					fn, _ = info.Uses[e].(*types.Func)
+				case *ast.SelectorExpr:
+					if sel, ok := info.Selections[e]; ok && sel.Kind() == types.MethodVal {
+						fn, _ = sel.Obj().(*types.Func)
+					}
+				}
+				if fn != nil {
+					if cfi := p.ByObj[fn]; cfi != nil && !seen[cfi.Key] {
+						seen[cfi.Key] = true
+						dcg[k] = append(dcg[k], cfi.Key)
+					}
+				}
+				return true
+			})
+		}
+		p.dcg = dcg
+	}
+	seen := map[string]bool{}
+	stack := append([]string{}, p.dcg[fi.Key]...)
+	for len(stack) > 0 {
+		k := stack[len(stack)-1]
+		stack = stack[:len(stack)-1]
+		if k == fi.Key {
+			return true
+		}
+		if seen[k] {
+			continue
+		}
+		seen[k] = true
+		stack = append(stack, p.dcg[k]...)
+	}
+	return false
+}
